@@ -296,9 +296,10 @@ def sync_addressing(ctx: Ctx, rule: str) -> None:
     sf = sorted((s_ for s_ in ast.walk(fn.node) if isinstance(s_, (ast.Assign, ast.AugAssign)) and ast.unparse(s_.targets[0] if isinstance(s_, ast.Assign) else s_.target) == "suffixes"), key=lambda x: x.lineno)
     ok_sf = (len(sf) == 2 and isinstance(sf[0], ast.Assign) and ast.unparse(sf[0].value) == "f'_{test_object.key}_{test_object.suffix}'"
              and isinstance(sf[1], ast.AugAssign) and isinstance(sf[1].op, ast.Add) and ifexp_ok(sf[1].value, "test_object.key == 'images'", "f'_{vm_name}'", "''"))
-    sel = [i for i in ast.walk(fn.node) if isinstance(i, ast.If) and any(isinstance(x, ast.Assign) and ast.unparse(x) == "should_clean = True" for x in i.body)]
-    ok_sel = len(sel) == 1 and isinstance(sel[0].test, ast.Compare) and isinstance(sel[0].test.ops[0], ast.In) and ast.unparse(sel[0].test.left) == "vm_name" \
-        and ast.unparse(sel[0].test.comparators[0]).startswith("params.get('vms'") and [type(x) for x in sel[0].orelse] == [ast.Continue]
+    # which vm the 'selected' test is about (its polarity and effect are rows of the sync_states decision table, C05.3)
+    sel = [c for i in ast.walk(fn.node) if isinstance(i, ast.If) for c in ast.walk(i.test) if isinstance(c, ast.Compare) and len(c.ops) == 1 and isinstance(c.ops[0], (ast.In, ast.NotIn))
+           and ast.unparse(c.comparators[0]).startswith("params.get('vms'")]
+    ok_sel = len(sel) == 1 and ast.unparse(sel[0].left) == "vm_name"
     ok = ok_vm and ok_sf and ok_sel
     ctx.record(rule, "PROV", SYNC, "selected test: the object's vm (own suffix for a vm, the composite's for an image) is among the run's vms, else skipped; state keys: _<type>_<suffix> plus _<vm> for images",
                ok, {"vm_name": ok_vm, "suffixes": ok_sf, "selection": ok_sel}, "" if ok else "a cleanup request is addressed to another object or vm than the one whose state is decided on")
